@@ -11,6 +11,10 @@
     entry* with the new title's level (a `retain` whose closure orders the entry's level against the level, or a pop loop that
     compares the top entry) before the title is pushed. A positional cut (`truncate(level - 1)`, `drain`, `split_off`) assumes
     levels are dense: with a skipped level a closed sibling stays on the stack and leaks into every later breadcrumb.
+ R4 the page index is the position in the page list: the `enumerate()` whose counter is stamped into the elements' `page`
+    field in `do_partition_pages` is applied directly to the iterator over all pages — no `filter`, `skip`, `step_by`,
+    `filter_map`, `rev`, `skip_while` or `take_while` underneath it; with a filter below `enumerate` every page after a skipped
+    one (a blank or image-only page) is numbered one too low, and so are the chunks' page numbers and spans.
 Not decided: exactly-once paragraphs, the breadcrumb values themselves.
 """
 from .. import lib as L
@@ -38,6 +42,7 @@ def reads_field(facts, fid, field):
 
 def run(ctx):
     r3_heading_stack(ctx)
+    r4_page_index(ctx)
     facts = ctx.facts
     roots = [f for f in (D + "rag_chunks", D + "rag_chunks_with", D + "rag_chunks_with_source", D + "rag_chunks_with_source_and_config",
                          D + "rag_chunks_from_elements", D + "rag_chunks_json", D + "rag_chunks_with_pipeline", D + "rag_chunks_with_profile",
@@ -119,3 +124,29 @@ def r3_heading_stack(ctx):
     else:
         ctx.violation("R3", key, "no pruning of the heading stack by level comparison dominates the push of a new title: closed sections "
                       "never leave the breadcrumb", fn.where(pushes[0]))
+
+
+def r4_page_index(ctx):
+    fn = None
+    for k, f in ctx.facts.fns.items():
+        if k.endswith("::do_partition_pages") and f.kind != "Closure":
+            fn = f
+    if fn is None:
+        ctx.fn("parser::document::PdfDocument::<R>::do_partition_pages", "R4")
+        return
+    ens = [(b, c) for b, c, a, d, t, u in fn.calls() if isinstance(c, dict) and L.short(c.get("p") or "") == "enumerate"]
+    if not ctx.floor("R4", "enumerate() over the pages in do_partition_pages", len(ens), 1):
+        return
+    BAD = ("Filter<", "FilterMap<", "Skip<", "SkipWhile<", "StepBy<", "Rev<", "TakeWhile<", "Take<", "Flatten<", "FlatMap<", "Peekable<", "Chain<")
+    for i, (b, c) in enumerate(ens):
+        st = c.get("self") or ""
+        key = "do_partition_pages:enumerate#%d:over-all-pages" % (i + 1)
+        if "ExtractedText" not in st and "Page" not in st:
+            continue
+        hit = [x for x in BAD if x in st]
+        if hit:
+            ctx.violation("R4", key, "the page counter comes from `enumerate()` applied on top of `%s` (%s): the counter is no longer the "
+                          "page's position in the document, so every element after a skipped page is stamped with a page number that "
+                          "is too low, and chunk page numbers, spans and regions name the wrong pages" % (hit[0].rstrip("<"), st[:120]), fn.where(b))
+        else:
+            ctx.ok("R4", key, "enumerate() directly over the page list (%s)" % st[:80], fn.where(b))
